@@ -214,4 +214,10 @@ theorem isDigit_not_space (c : Char) (h : isDigit c = true) : isSpace c = false 
   simp only [List.mem_cons, List.not_mem_nil, or_false] at this
   rcases this with h | h | h | h | h | h | h | h | h | h <;> subst h <;> decide
 
+
+theorem strip_pair_of_not_space (c1 c2 : Char) (h : isSpace c1 = false) :
+    strip [c1, c2] = if isSpace c2 then [c1] else [c1, c2] := by
+  unfold strip lstrip rstrip
+  by_cases h2 : isSpace c2 = true <;> simp [List.dropWhile_cons, h, h2]
+
 end Py
